@@ -96,8 +96,17 @@ def check_pair(pol, peer, st, family, old_format=False):
 
 
 # ---------------------------------------------------------------- families
-def fam_list(field):
-    uni = U[field]
+# unusual but legal names: base64 tails with '=', '+', '/' (gss-*), names that differ only in such a tail, upper case, one name a prefix of another
+ODD = {
+    'host_keys': ['ssh-ed25519', 'ssh-ed25519-cert-v01@openssh.com', 'sk-ssh-ed25519@openssh.com'],
+    'kex': ['gss-group14-sha256-a+b/c0==', 'gss-group14-sha256-zzzz/0+==', 'gss-gex-sha1-dZuIebMjgUqaxvbF7hDbAw==', 'curve25519-sha256'],
+    'ciphers': ['AES256-CTR', 'aes256-ctr', 'aes256-ctr@example.org'],
+    'macs': ['hmac-sha2-256', 'hmac-sha2-256-etm@openssh.com', 'hmac-sha2-256@x=y'],
+}
+
+
+def fam_list(field, uni=None):
+    uni = uni or U[field]
     # [''] is the directive written with an empty value ("ciphers = "), which is what --make-policy writes for a peer whose list is empty
     pol_vals = [None, ['']] + seqs(uni, 1, 3 if field != 'kex' else 3)
     peer_vals = seqs(uni, 0, 3)
@@ -202,14 +211,16 @@ def fam_misc():
                     yield pol, peer
 
 
-FAMILIES = {'list:host_keys': lambda: fam_list('host_keys'), 'list:kex': lambda: fam_list('kex'), 'list:ciphers': lambda: fam_list('ciphers'),
+FAMILIES = {'list:host_keys:odd-names': lambda: fam_list('host_keys', ODD['host_keys']), 'list:kex:odd-names': lambda: fam_list('kex', ODD['kex']),
+            'list:ciphers:odd-names': lambda: fam_list('ciphers', ODD['ciphers']), 'list:macs:odd-names': lambda: fam_list('macs', ODD['macs']),
+            'list:host_keys': lambda: fam_list('host_keys'), 'list:kex': lambda: fam_list('kex'), 'list:ciphers': lambda: fam_list('ciphers'),
             'list:macs': lambda: fam_list('macs'), 'pairs': fam_pairs, 'sizes': fam_sizes, 'misc': fam_misc}
 
 
 def quick_filter(family, pol, peer):
     """quick tier: lists of length <= 2"""
     if family.startswith('list:'):
-        f = family[5:]
+        f = family[5:].split(':')[0]
         return len(pol.get(f) or []) <= 2 and len(peer[PEERFIELD[f]]) <= 2
     return True
 
